@@ -1,13 +1,32 @@
 /-
   C18 — The resolver honours the configured address family and upstream port.
-  FIRST-CLAIM version: the record types a nameserver's address is looked up with, per mode, and
-  the family of what `get_ip` can return for each.  Being proved over the whole machine (any
-  oracle, zones, cache): every logged exchange carries the configured port and, under only-vX, an
-  address of family X; forwarding mode only ever contacts the forwarder.
+
+  The recursive and forwarding machines run over an ARBITRARY upstream oracle and log every
+  transport attempt (`Run.log`).  Proved here, for every oracle, zones, cache, question, mode,
+  host order and fuel:
+  * every logged exchange of the recursive resolver goes to the configured port with RD clear and,
+    under only-v4 / only-v6, to an address of that family (`C18_machine_log_inv`, `C18_only`,
+    `C18_port`) — there is no fallback to the other family because the only addresses the loop
+    ever queries come out of `tryTypes`, which under only-vX looks up the single type X
+    (`C18_tryTypes_family`);
+  * under prefer-vX the address lookup asks for X's type first and yields an address of the other
+    family only if the X lookup produced no address (`C18_prefer_order_v4/v6`,
+    `C18_prefer_first_v4/v6`);
+  * the forwarding resolver contacts only the configured forwarder, on the configured port, with
+    RD set (`C18_forward_only`);
+  * a question local data answers causes no exchange at all (`C18_local_answer_no_exchange`,
+    `C18_local_answer_recursive`); authoritative-only mode (`resolveAuthoritativeOnly`) has no
+    oracle and no `Run` in its type: it cannot contact anything.
 -/
 import Resolved.Model.Resolver
+import Resolved.Proofs.ResolverMachineInv
+import Resolved.Proofs.ResolverMachineExample
 
 namespace Resolved
+
+open Gen
+
+set_option autoImplicit false
 
 /-- only-v4 asks for A only, only-v6 for AAAA only; prefer-vX asks for X's type first. -/
 theorem C18_lookup_types :
@@ -18,29 +37,193 @@ theorem C18_lookup_types :
 /-- `get_ip` for type A yields only IPv4 addresses and for AAAA only IPv6 addresses. -/
 theorem C18_getIp_family (rrs : List RR) (target : Name) (rtype : Nat) (addr : FieldVal)
     (h : getIp rrs target rtype = some addr) :
-    (rtype = RT_A → ∃ x, addr = .a x) ∧ (rtype = RT_AAAA → ∃ x, addr = .aaaa x) := by
-  unfold getIp at h
+    (rtype = RT_A → ∃ x, addr = .a x) ∧ (rtype = RT_AAAA → ∃ x, addr = .aaaa x) :=
+  getIp_family rrs target rtype addr h
+
+/-- What C18 demands of the exchange log of the recursive resolver. -/
+def RecLogOK (cfg : RecCfg) (log : List Exchange) : Prop :=
+  ∀ e ∈ log, e.port = cfg.port ∧ e.recursionDesired = false ∧
+    (cfg.mode = .onlyV4 → ∃ x, e.addr = .a x) ∧ (cfg.mode = .onlyV6 → ∃ x, e.addr = .aaaa x)
+
+theorem RecLogOK_iff (cfg : RecCfg) (log : List Exchange) : RecLogOK cfg log ↔ LogOK cfg.net log :=
+  Iff.rfl
+
+/-- The address a nameserver is contacted at always comes out of `tryTypes`; under only-v4 that
+    is an IPv4 address and under only-v6 an IPv6 address, whatever zones, cache and upstream hold
+    (an AAAA record for the host is simply never looked up under only-v4, and vice versa). -/
+theorem C18_tryTypes_family (cfg : RecCfg) (fuel : Nat) (st : St) (locally : Bool) (hostname : Name)
+    (addr : FieldVal) (h : (tryTypes cfg fuel st locally hostname (rtypesFor cfg.mode)).2 = some addr) :
+    (cfg.mode = .onlyV4 → ∃ x, addr = .a x) ∧ (cfg.mode = .onlyV6 → ∃ x, addr = .aaaa x) :=
+  tryTypes_family cfg fuel st locally hostname addr h
+
+/-- `machine_log_inv`: each of the four mutually recursive functions of the recursive resolver
+    preserves the log invariant, for any fuel and any arguments. -/
+theorem C18_machine_log_inv (cfg : RecCfg) (fuel : Nat) :
+    (∀ st q, RecLogOK cfg st.run.log → RecLogOK cfg (resolveRec cfg fuel st q).1.run.log) ∧
+    (∀ st q combined mc cands next locally, RecLogOK cfg st.run.log →
+      RecLogOK cfg (candidateLoop cfg fuel st q combined mc cands next locally).1.run.log) ∧
+    (∀ st rrs q, RecLogOK cfg st.run.log → RecLogOK cfg (resolveCombined cfg fuel st rrs q).1.run.log) ∧
+    (∀ st locally host types, RecLogOK cfg st.run.log →
+      RecLogOK cfg (tryTypes cfg fuel st locally host types).1.run.log) := by
+  obtain ⟨h1, h2, h3, h4⟩ := machine_good cfg fuel
+  exact ⟨fun st q => (h1 st q).1.logOK, fun st q c m cs n l => (h2 st q c m cs n l).1.logOK,
+    fun st r q => (h3 st r q).1.logOK, fun st l h t => (h4 st l h t).1.logOK⟩
+
+/-- Every exchange of a whole recursive resolution satisfies the log invariant. -/
+theorem C18_recursive_log (cfg : RecCfg) (ctx : Ctx) (q : Question) :
+    RecLogOK cfg (resolveRecursive cfg ctx q).1.run.log :=
+  (resolveRecursive_reach cfg ctx q).1.logOK (LogOK.nil _)
+
+/-- Under only-v4 the recursive resolver contacts upstream nameservers solely at IPv4 addresses,
+    under only-v6 solely at IPv6 addresses — for any upstream behaviour, zones and cache. -/
+theorem C18_only (cfg : RecCfg) (ctx : Ctx) (q : Question) :
+    ∀ e ∈ (resolveRecursive cfg ctx q).1.run.log,
+      (cfg.mode = .onlyV4 → ∃ x, e.addr = .a x) ∧ (cfg.mode = .onlyV6 → ∃ x, e.addr = .aaaa x) :=
+  fun e he => (C18_recursive_log cfg ctx q e he).2.2
+
+/-- Every upstream query of the recursive resolver goes to the configured upstream port (and is
+    an iterative query: RD clear). -/
+theorem C18_port (cfg : RecCfg) (ctx : Ctx) (q : Question) :
+    ∀ e ∈ (resolveRecursive cfg ctx q).1.run.log, e.port = cfg.port ∧ e.recursionDesired = false :=
+  fun e he => ⟨(C18_recursive_log cfg ctx q e he).1, (C18_recursive_log cfg ctx q e he).2.1⟩
+
+/-- In forwarding mode every exchange goes to the configured forwarder, on the configured port,
+    with RD set — any fuel, any state with a conforming log. -/
+theorem C18_forward_inv (cfg : FwdCfg) (fuel : Nat) (st : St) (q : Question)
+    (h : ∀ e ∈ st.run.log, e.addr = cfg.addr ∧ e.port = cfg.port ∧ e.recursionDesired = true) :
+    ∀ e ∈ (resolveFwd cfg fuel st q).1.run.log,
+      e.addr = cfg.addr ∧ e.port = cfg.port ∧ e.recursionDesired = true := by
+  have h0 : LogOK cfg.net st.run.log := fun e he => ⟨(h e he).2.1, (h e he).2.2, (h e he).1⟩
+  intro e he
+  obtain ⟨h1, h2, h3⟩ := (resolveFwd_good cfg fuel st q).1.logOK h0 e he
+  exact ⟨h3, h1, h2⟩
+
+theorem C18_forward_only (cfg : FwdCfg) (ctx : Ctx) (q : Question) :
+    ∀ e ∈ (resolveForwarding cfg ctx q).1.run.log,
+      e.addr = cfg.addr ∧ e.port = cfg.port ∧ e.recursionDesired = true := by
+  intro e he
+  obtain ⟨h1, h2, h3⟩ := (resolveForwarding_reach cfg ctx q).1.logOK (LogOK.nil _) e he
+  exact ⟨h3, h1, h2⟩
+
+/-- A question that local data (zones + cache) answers is answered without any upstream exchange:
+    `resolveRec` returns with the run (log, clock) exactly as it got it. -/
+theorem C18_local_answer_no_exchange (cfg : RecCfg) (fuel : Nat) (st : St) (q : Question) (r : ResolvedRecord)
+    (h : (resolveLocal (RECURSION_LIMIT + 1) st.ctx q).2 = .ok (.done r)) :
+    (resolveRec cfg (fuel + 1) st q).1.run = st.run ∧
+    (st.run.timedOut = false → (resolveRec cfg (fuel + 1) st q).2 = .ok r) := by
+  rw [resolveRec_succ]
+  split
+  · rename_i ht; exact ⟨rfl, fun hh => by rw [hh] at ht; cases ht⟩
+  -- `resolveLocal` itself checks the two stack guards first, so they pass here
+  have hl : st.ctx.atRecursionLimit = false := by
+    cases hh : st.ctx.atRecursionLimit with
+    | false => rfl
+    | true => rw [resolveLocal] at h; simp [hh] at h
+  have hd : st.ctx.isDuplicate q = false := by
+    cases hh : st.ctx.isDuplicate q with
+    | false => rfl
+    | true => rw [resolveLocal] at h; simp [hl, hh] at h
+  simp only [hl, hd, Bool.false_eq_true, if_false]
+  rw [h]
+  exact ⟨rfl, fun _ => rfl⟩
+
+/-- … and so for a whole resolution: no exchange is logged, no time passes, the local answer is
+    the result.  (Also C01: no upstream server is contacted for a question local data answers.) -/
+theorem C18_local_answer_recursive (cfg : RecCfg) (ctx : Ctx) (q : Question) (r : ResolvedRecord)
+    (h : (resolveLocal (RECURSION_LIMIT + 1) ctx q).2 = .ok (.done r)) :
+    (resolveRecursive cfg ctx q).1.run = Run.empty ∧ (resolveRecursive cfg ctx q).2 = .ok r := by
+  have h1 := C18_local_answer_no_exchange cfg (REC_FUEL - 1) ⟨ctx, Run.empty⟩ q r h
+  have hf : REC_FUEL - 1 + 1 = REC_FUEL := by decide
+  rw [hf] at h1
+  obtain ⟨h2, h3⟩ := h1
+  have h4 := h3 rfl
+  unfold resolveRecursive
+  simp only []
+  have ht : (resolveRec cfg REC_FUEL ⟨ctx, Run.empty⟩ q).1.run.timedOut = false := by rw [h2]; rfl
+  rw [if_neg (by rw [ht]; exact Bool.false_ne_true)]
+  exact ⟨h2, h4⟩
+
+/-- Authoritative-only mode takes no oracle and no `Run`: its value is a function of the local
+    lookup alone, so nothing can be sent upstream (there is nothing to send it with). -/
+theorem C18_auth_only_no_upstream (ctx : Ctx) (q : Question) :
+    resolveAuthoritativeOnly ctx q =
+      ((resolveLocal (RECURSION_LIMIT + 1) ctx q).1,
+       (resolveLocal (RECURSION_LIMIT + 1) ctx q).2.map LocalResult.toResolved) := rfl
+
+/-- Under prefer-v4 the address lookup for a nameserver asks for the A record first: the loop is
+    "look A up; if that gave an address use it; otherwise go on with AAAA". -/
+theorem C18_prefer_first_v4 (cfg : RecCfg) (hm : cfg.mode = .preferV4) (fuel : Nat) (st : St)
+    (locally : Bool) (host : Name) :
+    tryTypes cfg (fuel + 1) st locally host (rtypesFor cfg.mode) =
+      if st.run.timedOut then (st, none)
+      else
+        match (lookupStep cfg fuel st locally host RT_A).2 with
+        | some a => ((lookupStep cfg fuel st locally host RT_A).1, some a)
+        | none => tryTypes cfg fuel (lookupStep cfg fuel st locally host RT_A).1 locally host [RT_AAAA] := by
+  rw [hm]; exact tryTypes_cons cfg fuel st locally host RT_A [RT_AAAA]
+
+theorem C18_prefer_first_v6 (cfg : RecCfg) (hm : cfg.mode = .preferV6) (fuel : Nat) (st : St)
+    (locally : Bool) (host : Name) :
+    tryTypes cfg (fuel + 1) st locally host (rtypesFor cfg.mode) =
+      if st.run.timedOut then (st, none)
+      else
+        match (lookupStep cfg fuel st locally host RT_AAAA).2 with
+        | some a => ((lookupStep cfg fuel st locally host RT_AAAA).1, some a)
+        | none => tryTypes cfg fuel (lookupStep cfg fuel st locally host RT_AAAA).1 locally host [RT_A] := by
+  rw [hm]; exact tryTypes_cons cfg fuel st locally host RT_AAAA [RT_A]
+
+/-- Under prefer-v4 an IPv6 address is handed to the query loop only if the A lookup (the local
+    one while the resolver holds addresses locally, the recursive one otherwise) produced no
+    address: while an IPv4 address is held for the nameserver, it is never contacted over IPv6. -/
+theorem C18_prefer_order_v4 (cfg : RecCfg) (hm : cfg.mode = .preferV4) (fuel : Nat) (st : St)
+    (locally : Bool) (host : Name) (x : List Nat)
+    (h : (tryTypes cfg (fuel + 1) st locally host (rtypesFor cfg.mode)).2 = some (.aaaa x)) :
+    (lookupStep cfg fuel st locally host RT_A).2 = none := by
+  rw [C18_prefer_first_v4 cfg hm] at h
   split at h
-  · split at h
-    · rename_i rr hrec
-      have hrt : rr.rtype = rtype := by
-        unfold getRecord at hrec
-        have := List.find?_some hrec
-        simp at this
-        exact this.1
-      split at h
-      · split at h
-        · cases h; constructor
-          · intro _; exact ⟨_, rfl⟩
-          · intro h2; rename_i h3; rw [hrt, h2] at h3; simp [RT_A, RT_AAAA] at h3
-        · cases h
-      · split at h
-        · cases h; constructor
-          · intro h2; rename_i h3; rw [hrt, h2] at h3; simp [RT_A, RT_AAAA] at h3
-          · intro _; exact ⟨_, rfl⟩
-        · cases h
-      · cases h
-    · cases h
   · cases h
+  · split at h
+    · rename_i a ha
+      simp only at h
+      obtain ⟨rrs, hr⟩ := lookupStep_source ha
+      obtain ⟨y, hy⟩ := (getIp_family rrs host RT_A a hr).1 rfl
+      rw [hy] at h; cases h
+    · assumption
+
+theorem C18_prefer_order_v6 (cfg : RecCfg) (hm : cfg.mode = .preferV6) (fuel : Nat) (st : St)
+    (locally : Bool) (host : Name) (x : Nat)
+    (h : (tryTypes cfg (fuel + 1) st locally host (rtypesFor cfg.mode)).2 = some (.a x)) :
+    (lookupStep cfg fuel st locally host RT_AAAA).2 = none := by
+  rw [C18_prefer_first_v6 cfg hm] at h
+  split at h
+  · cases h
+  · split at h
+    · rename_i a ha
+      simp only at h
+      obtain ⟨rrs, hr⟩ := lookupStep_source ha
+      obtain ⟨y, hy⟩ := (getIp_family rrs host RT_AAAA a hr).2 rfl
+      rw [hy] at h; cases h
+    · assumption
+
+/-- Conversely an address held for the preferred family is the one used (prefer-v4 shown;
+    `lookupStep … RT_A` yielding `a` means the A lookup found the address `a`). -/
+theorem C18_prefer_uses_preferred_v4 (cfg : RecCfg) (hm : cfg.mode = .preferV4) (fuel : Nat) (st : St)
+    (locally : Bool) (host : Name) (a : FieldVal) (ht : st.run.timedOut = false)
+    (h : (lookupStep cfg fuel st locally host RT_A).2 = some a) :
+    (tryTypes cfg (fuel + 1) st locally host (rtypesFor cfg.mode)).2 = some a ∧ ∃ x, a = .a x := by
+  rw [C18_prefer_first_v4 cfg hm, ht, h]
+  obtain ⟨rrs, hr⟩ := lookupStep_source h
+  exact ⟨rfl, (getIp_family rrs host RT_A a hr).1 rfl⟩
+
+/-! ### Non-vacuity: a concrete run that does log an exchange (only-v4, port 53), and a forwarding
+    run (forwarder 9.1.2.1, port 5353). -/
+
+example : (resolveRecursive exCfg exCtx exQ).1.run.log =
+    [{ addr := .a 16909060, port := 53, tcp := false, question := exQ, recursionDesired := false }] := by
+  decide +kernel
+
+example : (resolveForwarding exFwd exCtx exQ).1.run.log =
+    [{ addr := .a 151060737, port := 5353, tcp := false, question := exQ, recursionDesired := true }] := by
+  decide +kernel
 
 end Resolved
